@@ -404,6 +404,19 @@ def configurations(crates, quick):
     if "+avx2" in have and "+aes" in have and "+ssse3" in have:
         cfgs.append({"label": "all-crates-no-features/ct-avx2+aes", "std": False, "tf": "+ssse3,+sse4.1,+avx,+avx2,+aes",
                      "points": {k: [] for k in DEP}})
+    # Added after the mutation campaign (M05, M46): groestl-aesni's `mod ssse3` bodies and its
+    # `cfg(all(target_feature = "ssse3", not(target_feature = "aes")))`-style arms exist only in a no-std build with
+    # `-C target-feature=+ssse3` and WITHOUT `+aes`; `mod sse2` only in a no-std build with no extra target feature. This
+    # machine executes both (its feature set is a superset). The +ssse3 configuration leaves blake-hash / jh-x86_64 out (they
+    # turn ppv-lite86/std on), so that ppv-lite86 is no-std too and its static dispatch selects the SSSE3 machine for the
+    # chacha and ppv sections; the plain-sse2 one is groestl alone (`static_dispatch` -> `sse2::*`). Appended AFTER the avx2 configuration so that the lanes (= cached
+    # target directories) of the older configurations do not move.
+    groestl_only = {k: None for k in DEP}
+    groestl_only["groestl"] = []
+    if "+ssse3" in have:
+        cfgs.append({"label": "groestl-nostd/ct-ssse3-without-aes", "std": False, "tf": "+ssse3",
+                     "points": {k: (None if k in ("blake", "jh") else []) for k in DEP}})
+    cfgs.append({"label": "groestl-nostd/ct-plain-sse2", "std": False, "points": dict(groestl_only)})
     if quick:
         return cfgs
     # family A: every crate present, crate k at its point number i mod |lattice_k|
